@@ -188,6 +188,13 @@ ROOT_HTTP = (" ROOT module: the resource family through the real root generator,
 for _p in ("C02", "C08"):
     CLAIMED[_p]["text"] = CLAIMED[_p]["text"] + ROOT_HTTP
 
+CLAIMED["C13"]["text"] = CLAIMED["C13"]["text"] + (" CONSTRUCTORS: New<X>WithDefaultValues is modelled (Codec/Ctor.v) and proved (Props/C13_ctor.v): every own defaulted field holds exactly the decoded literal, "
+    "required record fields are constructed recursively along chains of records with own defaults (ctor_at_every_depth), constructor = decoder on the empty document under a stated condition; three full statements "
+    "are refuted with witnesses replayed on the real generator (constructor vs decoder on required fields; defaults below a record without own defaults - known finding; included-record defaults - D28); "
+    "every generated constructor of the family is compared with the model in both modules (Corr/CtorCorr.v, Corr/RootCtorCorr.v).")
+CLAIMED["C16"]["text"] = CLAIMED["C16"]["text"] + (" Props/C16_defaults.v: with the real codec a reply that mentions exactly the requested keys is accepted and filed under the originals when every key is default-complete "
+    "(proved through the C01 round trip); without that premise the statement is refuted by a record key that leaves a defaulted field unset (known finding).")
+
 def main():
     checks, na = [], []
     for p in ALL:
